@@ -1,5 +1,8 @@
 CONSTANTS p = 19
  nq = 1
+ qnr2 = 1
+ big = FALSE
+ phases = {"quad", "sextic", "dodecic"}
 SPECIFICATION Spec
 INVARIANT Check
 CHECK_DEADLOCK FALSE
